@@ -76,7 +76,6 @@ def handle : DrvHandler := fun op args =>
       let changeReq ← jBool? (← jField? j "changeReq")
       let foreignFins ← jBool? (← jField? j "foreignFins")
       let constPatch ← jBool? (← jField? j "constPatch")
-      let idleFns ← jBool? (← jField? j "idleFns")
       let resumed ← jStrList? (← jField? j "resumed")
       let marked ← jBool? (← jField? j "marked")
       let blocked ← jBool? (← jField? j "blocked")
@@ -94,7 +93,7 @@ def handle : DrvHandler := fun op args =>
         limits := fun i => (C02.lookupD limitsL i).getD { timeout := none, retries := none },
         lifecycle,
         exec := fun i n => ((C02.lookupD oT i).bind (fun rows => (rows.find? (·.1 == n)).map (·.2))).getD missing,
-        prematch, changeReq, foreignFins, idleFns, constPatch, lat, rtt, cap,
+        prematch, changeReq, foreignFins, constPatch, lat, rtt, cap,
         initialH := fun i => (decls.find? (·.id == i)).any (·.gate.initial) }
       let s0 : State Nat := { P := C02.lookupD pL, base, ess := 0, marked, blocked, gone := false, noticed, fullyHandled, resumed, now,
                               pending := true, writes := 0 }
